@@ -359,6 +359,15 @@ class OpsMixin:
                     return float(r)
             elif self.int_range_bits(r) is not None:
                 return SymFloat(ival=r)
+        if t in (ast.Add, ast.Sub):
+            # half-integers are exact doubles: keep them as the quotient (n, 2)
+            ha, hb = self._halves(a), self._halves(b)
+            if ha is not None and hb is not None:
+                n = self.binop(op, ha, hb)
+                if isinstance(n, int):
+                    return n / 2
+                if self.int_range_bits(n) is not None and self.must(self.cmp("GtE", n, 0)):
+                    return SymFloat(quot=(n, 2))
         fa, fb = self.to_fp(a), self.to_fp(b)
         if t is ast.Div:
             if ib is None and self.decide(z3.fpIsZero(fb)):
@@ -371,6 +380,24 @@ class OpsMixin:
         if t is ast.Sub:
             return SymFloat(z3.fpSub(z3.RNE(), fa, fb))
         raise Unsupported("float op " + t.__name__)
+
+    def _halves(self, v):
+        """2*v as an exact integer (symbolic or concrete) when v is known to be a multiple of 1/2, else None"""
+        if isinstance(v, SymFloat):
+            if v.ival is not None:
+                return self.op("Mult", v.ival, 2)
+            if v.quot is not None and v.quot[1] == 2:
+                return v.quot[0]
+            if v.quot is not None and v.quot[1] == 1:
+                return self.op("Mult", v.quot[0], 2)
+            return None
+        if isinstance(v, bool):
+            return 2 * int(v)
+        if isinstance(v, (int, SymInt, SymBV)):
+            return self.op("Mult", v, 2)
+        if isinstance(v, float) and abs(v) < 2 ** 50 and (2 * v).is_integer():
+            return int(2 * v)
+        return None
 
     def lemma_truncdiv(self, k, bits):
         """forall 0 <= a <= 2^bits: trunc(fp(a)/fp(k)) == a div k, decided once as a QF_BVFP query."""
